@@ -325,6 +325,21 @@ def replay_end_to_end(chk, rng, what):
         if numpy.abs(ps - calc.static_p_array).max() > 1e-7 * numpy.abs(ps).max():
             chk.violation("end-to-end:static-pressure", "static pressure differs from -dE/dV of the cubic fit of the input energies", {})
             return
+        # crystal-system filling applied first: the components are those of the symmetry-filled table
+        sysname = calc.config["elast"]["settings"]["symmetry"].get("system")
+        if sysname and sysname != "triclinic":
+            import pandas
+            import cij.io.traditional as trd
+            from cij.util.fill import fill_cij
+            raw = trd.read_elast_data(os.path.join(os.path.dirname(ex), calc.config["elast"]["input"]))
+            tabdf = pandas.DataFrame([{("c%d%d" % k.v): val for k, val in vol.static_elastic_modulus.items()} for vol in raw.volumes])
+            with warnings.catch_warnings():
+                warnings.simplefilter("ignore")
+                filled = fill_cij(tabdf, sysname)
+            if sorted("c%d%d" % k.v for k in calc.modulus_keys) != sorted(filled.columns):
+                chk.violation("end-to-end:symmetry-fill", "requested crystal system %s: the calculation uses components %s, the filled table has %s" % (
+                    sysname, sorted("c%d%d" % k.v for k in calc.modulus_keys), sorted(filled.columns)), dict(system=sysname))
+                return
         # phonon part: the real phonon classes fed with what the files supply, wired as the property states
         import cij.core.mode_gamma as mg
         cfg = calc.config["elast"]["settings"]["mode_gamma"]
@@ -354,7 +369,7 @@ def replay_end_to_end(chk, rng, what):
             k = "c%d%d" % key.v
             for nm, got, ref in (("isothermal", calc._full_modulus._isothermal_phonon_contribution[key], iso_ref[k]),
                                  ("adiabatic", calc._full_modulus._adiabatic_phonon_contribution[key], adi_ref[k])):
-                sc = numpy.abs(ref[1:-4]).max() + 1e-300
+                sc = max(numpy.abs(ref[1:-4]).max(), 1e-6 * numpy.abs(iso_ref[keys[0]][1:-4]).max()) + 1e-300
                 dev = numpy.abs(numpy.asarray(got)[1:-4] - ref[1:-4]).max() / sc
                 if not dev < 1e-7:
                     chk.violation("end-to-end:phonon-part", "%s phonon part of %s differs from the phonon pipeline evaluated on the data the files "
